@@ -51,6 +51,8 @@ pub enum V {
     ToSlice(Un, Box<S>), // to_rev / to_comp / to_revcomp called on &SeqSlice
     And(Box<S>, Box<S>),
     Or(Box<S>, Box<S>),
+    AndSV(Box<S>, Box<V>), // &SeqSlice & &Seq (right operand an owned sequence, by reference)
+    OrSV(Box<S>, Box<V>),
     BitAnd(Box<V>, Box<V>),
     BitOr(Box<V>, Box<V>),
     Push(Box<V>, usize),
@@ -202,6 +204,8 @@ fn parse_v_kw(k: &str, t: &mut Toks) -> PResult<V> {
         "storev" | "stocomp" | "storevcomp" => V::ToSlice(un(&k[3..]).unwrap(), Box::new(parse_s(t)?)),
         "and" => V::And(Box::new(parse_s(t)?), Box::new(parse_s(t)?)),
         "or" => V::Or(Box::new(parse_s(t)?), Box::new(parse_s(t)?)),
+        "andsv" => V::AndSV(Box::new(parse_s(t)?), Box::new(parse_v(t)?)),
+        "orsv" => V::OrSV(Box::new(parse_s(t)?), Box::new(parse_v(t)?)),
         "bitand" => V::BitAnd(Box::new(parse_v(t)?), Box::new(parse_v(t)?)),
         "bitor" => V::BitOr(Box::new(parse_v(t)?), Box::new(parse_v(t)?)),
         "push" => {
